@@ -94,6 +94,14 @@ def main():
     lr.finish_cov("dependency graphs over 2-7 ids (chains, fans, cycles, self-loops, dangling targets, random; facts, rules and property facts as nodes), deleted in random orders "
                   "through RemFact/RemRule, or by expiry (2 s lifetime, observed after the instant); both states; after each deletion memory and storage are compared with the Lean model "
                   "and with the least set closed under 'names a deleted id in deleteWith'; non-trivial = some node carries a deleteWith")
+    for f in known_findings("C08"):
+        a = run_cases(lr.drv, [f["witness"]])[0]
+        last = (a.get("outs") or [{}])[-1]
+        got = last.get("ok") if "ok" in last else ("err:" + str(last.get("err")))
+        if canon(got) == canon(f["observed"]):
+            ck.known_finding("%s: %s" % (f["id"], f["what"]))
+        else:
+            ck.note("known finding %s no longer reproduces (got %s)" % (f["id"], canon(got)[:100]))
     proof_verdict(ck, pr)
     ck.finish()
 
